@@ -151,6 +151,10 @@ def _close(a, b, rtol, atol):
 
 def compare_states(ctx, site, cfg, call, e, pd, er, pdr):
     trig = {"entry": cfg.get("entry", "driver"), "wt": cfg["wt"]}
+    # scan and replay execute the same formulas in different compilations; a walker hit by an
+    # injected large field is badly conditioned for a few steps and amplifies that round-off
+    # (cond x eps), so runs with injected faults are compared at 1e-7 (a missing refresh is >= 1e-3)
+    tol = 1e-7 if cfg.get("faults") else 1e-9
 
     def bad(klass, **d):
         d["trigger"] = trig
@@ -158,9 +162,9 @@ def compare_states(ctx, site, cfg, call, e, pd, er, pdr):
         ctx.violation(klass, site, d)
 
     e, er = float(np.asarray(e)), float(er)
-    if not (abs(e - er) <= 1e-9 * max(1.0, abs(er)) or (np.isnan(e) and np.isnan(er))):
+    if not (abs(e - er) <= tol * max(1.0, abs(er)) or (np.isnan(e) and np.isnan(er))):
         bad("coherence.block_energy_differs_from_replay", sampler=e, replay=er)
-    if not _close(pd["weights"], pdr["weights"], 1e-9, 1e-12):
+    if not _close(pd["weights"], pdr["weights"], tol, 1e-12):
         bad("coherence.weights_differ_from_replay", sampler=np.asarray(pd["weights"]).tolist(), replay=np.asarray(pdr["weights"]).tolist())
     live = np.asarray(pdr["weights"]) > 0
     wa = pd["walkers"] if isinstance(pd["walkers"], list) else [pd["walkers"]]
@@ -168,13 +172,13 @@ def compare_states(ctx, site, cfg, call, e, pd, er, pdr):
     for x, y in zip(wa, wb):
         x, y = np.asarray(x)[live], np.asarray(y)[live]
         scale = max(1.0, float(np.max(np.abs(y[np.isfinite(y)]))) if np.any(np.isfinite(y)) else 1.0)
-        if not _close(x, y, 1e-8, 1e-9 * scale):
+        if not _close(x, y, 10 * tol, tol * scale):
             bad("coherence.walkers_differ_from_replay", max_abs_diff=float(np.nanmax(np.abs(x - y))))
             break
     ov, ovr = np.asarray(pd["overlaps"])[live], np.asarray(pdr["overlaps"])[live]
-    if not _close(ov, ovr, 1e-8, 1e-300):
+    if not _close(ov, ovr, 10 * tol, 1e-300):
         bad("coherence.returned_overlaps_differ_from_replay", sampler=str(ov.tolist()), replay=str(ovr.tolist()))
-    if not _close(pd["pop_control_ene_shift"], pdr["pop_control_ene_shift"], 1e-9, 1e-9):
+    if not _close(pd["pop_control_ene_shift"], pdr["pop_control_ene_shift"], tol, tol):
         bad("coherence.shift_differs_from_replay", sampler=float(pd["pop_control_ene_shift"]), replay=float(pdr["pop_control_ene_shift"]))
 
 
